@@ -122,6 +122,9 @@ func (g *Gen) fill(kind string, p *Program) Op {
 	case "IsInf":
 		op.D = []string{d()}
 		op.I = []int64{int64(g.R.Range(-1, 1))}
+		if g.R.P(1, 5) {
+			op.I[0] = g.intArg()
+		}
 	case "PayloadString":
 		v := int64(g.R.U64())
 		if g.R.P(2, 3) {
@@ -131,7 +134,7 @@ func (g *Gen) fill(kind string, p *Program) Op {
 	case "RoundingModeString":
 		op.I = []int64{int64(g.R.N(9))}
 	case "Const":
-		op.I = []int64{int64(g.R.N(7))}
+		op.I = []int64{int64(g.R.N(7)), g.intArg()}
 	case "New":
 		op.I = []int64{g.intArg(), g.dpArg()}
 	case "Ldexp":
@@ -217,6 +220,13 @@ func (g *Gen) fill(kind string, p *Program) Op {
 	case "FormatFn":
 		op.D = []string{d()}
 		op.I = []int64{int64("eEfgG"[g.R.N(5)]), g.precArg()}
+		if g.wildSpecs && g.R.P(1, 12) {
+			// any format byte, any negative precision (totality)
+			op.I[0] = int64(g.R.N(256))
+			if g.R.P(1, 2) {
+				op.I[1] = []int64{-2, -100, math.MinInt64, math.MinInt32}[g.R.N(4)]
+			}
+		}
 	case "AppendFn":
 		op.D = []string{d()}
 		op.I = []int64{int64("eEfgG"[g.R.N(5)]), g.precArg(), g.slot(nBufs), int64(g.R.N(3) / 2)}
